@@ -109,6 +109,12 @@ def build(run):
     math_exprs = [
         ("sqrt", sqrt(1 + f * f)), ("exp ln", exp(f) * ln(1 + g * g)), ("sin cos", sin(f) * cos(g)), ("tanh cosh", tanh(f) + cosh(g)), ("atan2", atan2(f, 1 + g * g)),
         ("erf", erf(f)), ("real power", (1 + f * f) ** 0.5), ("f**g", (1 + f * f) ** g), ("coordinate", x[0] * f + x[1]), ("grad(sin f)", grad(sin(f))[0]),
+        # spatial derivatives of every elementary function (evaluation expands the derivative first: each differentiation rule is exercised)
+        ("grad(tanh f)", grad(tanh(f))[0]), ("grad(cosh f)", grad(cosh(f))[1]), ("grad(sinh f)", grad(ufl.sinh(f))[0]), ("grad(cos f)", grad(cos(f))[1]),
+        ("grad(tan f)", grad(ufl.tan(f * 0.25))[0]), ("grad(exp f)", grad(exp(f))[0]), ("grad(ln(1+f^2))", grad(ln(1 + f * f))[1]), ("grad(sqrt(1+f^2))", grad(sqrt(1 + f * f))[0]),
+        ("grad(atan f)", grad(ufl.atan(f))[1]), ("grad(asin)", grad(ufl.asin(f / sqrt(2 + f * f)))[0]), ("grad(acos)", grad(ufl.acos(f / sqrt(2 + f * f)))[0]),
+        ("grad(erf f)", grad(erf(f))[1]), ("grad(atan2)", grad(atan2(f, 1 + g * g))[0]), ("(tanh(f g)).dx(1)", tanh(f * g).dx(1)), ("div(tanh(f) u)", div(tanh(f) * u)),
+        ("d tanh(w)/dw of a variable", (lambda w_: ufl.diff(tanh(w_) * w_, w_))(variable(f))), ("d cosh(w) sinh(w)/dw", (lambda w_: ufl.diff(cosh(w_) * ufl.sinh(w_), w_))(variable(g))),
         ("sqrt of sum", sqrt(u[i] * u[i] + 1) * g), ("cross", cross(as_vector([f, g, 1]), as_vector([g, f, 2]))[2] + sqrt(1 + f * f)),
     ]
 
